@@ -4,7 +4,7 @@ from checks import rtcommon
 
 def run(ctx):
     args = (["--n", "500", "--maxdim", "64", "--exh", "1"] if ctx.quick
-            else ["--n", "6000", "--maxdim", "128", "--exh", "2", "--big"])
+            else ["--n", "24000", "--maxdim", "128", "--exh", "2", "--big"])
     return rtcommon.run_contract(
         ctx, "c06", args, class_keys=None,
         rule="scenario = Encode then Decode of the registered .201 / .202 codec; Rows x Columns grid 1..80 (quick: all of 1..3 x "
